@@ -151,6 +151,26 @@ def overshoot_stream(rng, pid, tier):
     return out
 
 
+def relocate_stream(rng, pid, kinds=ALL_KINDS):
+    """the iterator value itself is moved to another address between two operations (what `Box::new(it)`, `vec.push(it)`, a
+    return by value or a move into a closure do), and the bytes it occupied are overwritten: single thread, every kind"""
+    out = []
+    i = 0
+    pres = [["next"], ["chunk 2 all"], ["next", "chunk 2 1"], ["skip"], ["len"], ["foreach 2 panic=1"], ["next", "next", "next"]]
+    posts = [["next", "next", "len"], ["chunk 3 all", "next"], ["skip", "next"], ["foreach 1"], ["bufnew 2", "bufnext all", "bufnext 1"], ["values"], []]
+    for kind in kinds:
+        for L in (3, 6, 8):
+            for pre in pres:
+                post = rng.choice(posts)
+                c = make_source(rng, "%s-mv%d" % (pid, i), kind, L, hint=rng.choice(["exact", "inexact"]))
+                c.threads = [list(pre) + list(post)]
+                c.relocate = len(pre)
+                c.owner = rng.choice(["drop", "intoseq all", "intoseq 1"])
+                out.append(c)
+                i += 1
+    return out
+
+
 def hintpanic_stream(rng, pid):
     """a wrapped iterator whose `size_hint` panics once it has produced everything -- if anybody asks at that moment: the crate
     reads `size_hint` only while constructing the concurrent iterator (`hint=panicend` is an inexact hint otherwise)"""
@@ -761,7 +781,7 @@ def stream_for0(pid, tier, seed):
     big = tier != "quick"
     if pid in ("C01", "C02", "C04"):
         return defects + pulls_stream(rng, tier, pid) + half_stream(rng, pid) + nth_stream(rng, pid) + liar_stream(rng, pid) + zst_stream(rng, pid) + pod_stream(rng, pid) + \
-            wrapper_nth_stream(rng, pid) + last_stream(rng, pid) + forget_stream(rng, pid)
+            wrapper_nth_stream(rng, pid) + last_stream(rng, pid) + forget_stream(rng, pid) + relocate_stream(rng, pid)
     if pid == "C03":
         cases = defects + pulls_stream(rng, tier, pid, prof=dict(loops=False, query=False, drain=0.2))
         cases += half_stream(rng, pid) + nth_stream(rng, pid) + liar_stream(rng, pid) + zst_stream(rng, pid) + pod_stream(rng, pid)
@@ -869,6 +889,7 @@ def stream_for0(pid, tier, seed):
         cases += droppanic_stream(rng, tier, pid) + zst_stream(rng, pid) + closure_panic_stream(rng, pid) + next_then_nth_stream(rng, pid, kinds=("vec", "array", "iter"))
         cases += spare_stream(rng, pid) + probe_panic_ledger_stream(rng, pid) + bigarr_stream(rng, pid)
         cases += [c for c in inpanic_stream(rng, pid) if c.kind in ("vec", "array", "iter") and "P" not in (c.script or [])]
+        cases += relocate_stream(rng, pid, kinds=("vec", "array", "iter"))
         return cases
     if pid == "C09":
         cases = defects + pulls_stream(rng, tier, pid, n_random=1000 if not big else 40000, prof=dict(skip=True))
@@ -927,6 +948,8 @@ def stream_for0(pid, tier, seed):
                             cases.append(c)
                             i += 1
         cases += [c for c in inpanic_stream(rng, pid) if "P" not in c.script]
+        # the function panics at every position of a one-by-one / chunked loop over a known-size source
+        cases += [c for c in closure_panic_stream(rng, pid, kinds=("slice", "vec", "range", "array")) if c.threads[0][0].split()[1] in ("1", "2") and c.src_len() <= 5]
         # zero-sized elements through every loop (chunk size 1 and > 1)
         i = 0
         for kind in ("vec", "array", "slice"):
